@@ -10,7 +10,7 @@
 //           10 tuple<>  11 bind_front shapes  12 inplace_function shapes  13 function_ref shapes
 //           14 reference_wrapper shapes  15 pair with reference members  16 invoke shapes  17 not_fn shapes
 //           18 tuple construction shapes  19 further tuple-like sources / reference tuples
-//           20 swap through the element type's own (ADL) swap
+//           20 swap through the element type's own (ADL) swap  21 class element compared with a different element type
 // element kinds: 0 int  1 int const  2 move-only  3 copy-only  4 int&  5 int&&  6 int const&
 #include "vf.hpp"
 #include "vf_contract.hpp"
@@ -1065,7 +1065,7 @@ void probe()
 }
 
 // ============================================================================================ 19 further tuple-like sources / reference tuples
-//           20 swap through the element type's own (ADL) swap
+//           20 swap through the element type's own (ADL) swap  21 class element compared with a different element type
 #elif VF_PROBE == 19
 constexpr char const* PNAME = "tuple-like-sources";
 void probe()
@@ -1248,6 +1248,69 @@ void probe()
     vf::eq_int("function_ref-rhs", f2(0), 1);
     cover("swap(reference_wrapper/function_ref)");
     #endif
+}
+
+// ============================================================================================ 21 class element compared with a different element type
+#elif VF_PROBE == 21
+constexpr char const* PNAME = "heterogeneous-class-element";
+template <typename E1, typename E2, typename S1, typename S2>
+void rels(E1 const& e1, E2 const& e2, S1 const& s1, S2 const& s2)
+{
+    if constexpr (requires { s1 == s2; } && requires { e1 == e2; }) {
+        vf::eq_bool("==", e1 == e2, s1 == s2);
+        vf::eq_bool("!=", e1 != e2, s1 != s2);
+        vf::eq_bool("==(swapped)", e2 == e1, s2 == s1);
+        vf::eq_bool("!=(swapped)", e2 != e1, s2 != s1);
+        cover("operator==");
+    }
+    if constexpr (requires { s1 < s2; } && requires { e1 < e2; }) {
+        vf::eq_bool("<", e1 < e2, s1 < s2);
+        vf::eq_bool("<=", e1 <= e2, s1 <= s2);
+        vf::eq_bool(">", e1 > e2, s1 > s2);
+        vf::eq_bool(">=", e1 >= e2, s1 >= s2);
+        vf::eq_bool("<(swapped)", e2 < e1, s2 < s1);
+        cover("operator<");
+    }
+}
+void probe()
+{
+    for (int a = -1; a < 3; ++a) {
+        for (int b = -1; b < 3; ++b) {
+            for (int tail = 0; tail < 2; ++tail) {
+                char sit[64];
+                std::snprintf(sit, sizeof sit, "first-%s,second-%s", a < b ? "less" : (a > b ? "greater" : "equal"), tail ? "differs" : "equal");
+    #if VF_KIND == 0
+                g_subject = "tuple<CI,int> vs tuple<int,int>";
+                crumb("relations", sit);
+                rels(etl::tuple<CI, int>(CI(a), 1), etl::tuple<int, int>(b, 1 + tail), std::tuple<CI, int>(CI(a), 1), std::tuple<int, int>(b, 1 + tail));
+                g_subject = "tuple<int,CI,long> vs tuple<int,int,int>";
+                crumb("relations", sit);
+                rels(etl::tuple<int, CI, long>(1, CI(a), 2L), etl::tuple<int, int, int>(1 + tail, b, 2), std::tuple<int, CI, long>(1, CI(a), 2L), std::tuple<int, int, int>(1 + tail, b, 2));
+    #elif VF_KIND == 1
+                g_subject = "pair<CI,int> vs pair<int,int>";
+                crumb("relations", sit);
+                rels(etl::pair<CI, int>(CI(a), 1), etl::pair<int, int>(b, 1 + tail), std::pair<CI, int>(CI(a), 1), std::pair<int, int>(b, 1 + tail));
+                crumb("pair<CI,int>(pair<int,int>) / operator=", sit);
+                etl::pair<int, int> const esrc(b, 1 + tail);
+                std::pair<int, int> const ssrc(b, 1 + tail);
+                etl::pair<CI, int> ec(esrc);
+                std::pair<CI, int> sc(ssrc);
+                vf::eq_int("converted.first", ec.first.v, sc.first.v);
+                etl::pair<CI, int> ea(CI(a), 0);
+                std::pair<CI, int> sa(CI(a), 0);
+                ea = esrc;
+                sa = ssrc;
+                vf::eq_int("assigned.first", ea.first.v, sa.first.v);
+                vf::eq_int("assigned.second", ea.second, sa.second);
+                rels(ea, ec, sa, sc);
+                etl::tuple<CI, int> et(b, 1);
+                std::tuple<CI, int> st(b, 1);
+                vf::eq_int("tuple(Us&&...).element0", etl::get<0>(et).v, std::get<0>(st).v);
+                cover("converting");
+    #endif
+            }
+        }
+    }
 }
 #endif
 
